@@ -10,7 +10,7 @@ from vlib.tlc import run_tlc
 
 def collect(tier: str, seed: int, work: core.Work) -> dict:
     cov = {'states': 0, 'transitions': 0, 'models': {}}
-    mcs = ['KvTree2_mc.cfg'] + (['KvTree_mc.cfg'] if tier == 'thorough' else [])
+    mcs = ['KvTree2_mc.cfg', 'KvTreeP_mc.cfg'] + (['KvTree_mc.cfg'] if tier == 'thorough' else [])
     for cfg in mcs:
         r = run_tlc('KvTree', cfg, timeout=600)
         core.require_mc(r, cfg)
@@ -18,10 +18,12 @@ def collect(tier: str, seed: int, work: core.Work) -> dict:
         cov['states'] += r.distinct
         cov['transitions'] += r.generated
     edges, r = core.dump_edges('KvTree', 'KvTree2_edges.cfg')
+    edges_p, r = core.dump_edges('KvTree', 'KvTreeP_edges.cfg')    # set_key((a, b), v) paths
+    edges = edges + edges_p
     actions: dict = {}
     for e in edges:
         actions[e['a']['op']] = actions.get(e['a']['op'], 0) + 1
-    want = {'append', 'setstr', 'delstr', 'extend', 'iadd', 'add', 'copymut', 'ensure', 'merge', 'clear', 'lookup'}
+    want = {'append', 'setstr', 'delstr', 'extend', 'iadd', 'add', 'copymut', 'ensure', 'merge', 'clear', 'lookup', 'setpath'}
     if not want <= set(actions):
         raise core.MachineryError(f'KvTree: actions never taken: {want - set(actions)}')
     ef = work.path('kvtree_edges.json')
